@@ -159,6 +159,12 @@ class ValueGen:
             p["c"] = "inspector"
         return probes
 
+    def peer_specs(self, d):
+        if d.get("callable") == "recip":
+            # a reciprocal unit (period vs frequency): the conversion raises ZeroDivisionError for 0
+            return [{"call": "recip:%r" % d["k"]}, {"call": "recip:%r" % d["k"]}]
+        return [{"call": "div:%r" % d["k"]}, {"call": "mul:%r" % d["k"]}]
+
     def _in_limited_category(self, sim, op):
         t = op.get("t")
         if not (isinstance(t, dict) and "ref" in t) or not self.limited:
@@ -311,7 +317,7 @@ class ValueGen:
             if not live and self.n <= 3 and any(d.get("callable") for d in self.dyn_units):
                 d = [x for x in self.dyn_units if x.get("callable")][0]
                 if _db_now().GetQuantityType(d["sym"]) is None:
-                    op = self.op("reg.AddUnit.new_callable", "db", "AddUnit", [d["qt"], d["name"], d["sym"], {"call": "div:%r" % d["k"]}, {"call": "mul:%r" % d["k"]}])
+                    op = self.op("reg.AddUnit.new_callable", "db", "AddUnit", [d["qt"], d["name"], d["sym"]] + self.peer_specs(d))
                     op["c"] = "registrar"
             elif live and rng.random() < 2.0 * self.cfg["peer_rate"]:
                 op = self.g_peer(sim, rng.choice(live))
@@ -1219,7 +1225,7 @@ class ValueGen:
             d = rng.choice(todo)
             if d.get("callable"):
                 # conversion functions supplied by the caller (peers owned by the simulator: F2)
-                return self.op("reg.AddUnit.new_callable", "db", "AddUnit", [d["qt"], d["name"], d["sym"], {"call": "div:%r" % d["k"]}, {"call": "mul:%r" % d["k"]}])
+                return self.op("reg.AddUnit.new_callable", "db", "AddUnit", [d["qt"], d["name"], d["sym"]] + self.peer_specs(d))
             return self.op("reg.AddUnit.new", "db", "AddUnit", [d["qt"], d["name"], d["sym"], "%%f / %r" % d["k"], "%%f * %r" % d["k"]])
         if form in ("cat_override", "cat_retype"):
             db = _db_now()
